@@ -246,6 +246,8 @@ def inputs(ctx):
         dx, dy, dz = rng.choice(PARAMS), rng.choice(PARAMS), rng.choice(PARAMS)
         if n > 80 and dz < 0.05 and rng.random() < 0.7:
             dz = rng.choice(PARAMS[1:])                    # keep the long-running corner a small share
+        if n <= 30 and rng.random() < 0.06:
+            dz = rng.choice([0.004, 0.005])                # very fine steps of the outlier threshold (many rounds; dz in (0, 1])
         x_max = None
         y_range = None
         if rng.random() < 0.35:
